@@ -4,7 +4,9 @@ validate_dynamic_job / execute_job + step.py mark_completed / get_hash / set_has
 
 Read from the AST on every run, fail closed on any other shape:
 
-  * compute_inp_hashes: what happens to one path after `all_inp_hashes[path] = new_file_hash`
+  * compute_inp_hashes: the head of the loop (refreshed called directly, or inside `try ... except (HashFailedError,
+    OSError)` whose handler puts FileHash.unknown() in place of the new hash and marks the path `unreadable`)
+    -> inp_on_unreadable; what happens to one path after `all_inp_hashes[path] = new_file_hash`
     (an if-tree over `new_file_hash != old_file_hash`, `.is_unknown` of either hash, whose leaves
     append to `messages`, raise, or do nothing) -> inp_entry_outcome
   * Executor.try_skip_job: the statement sequence
@@ -53,6 +55,8 @@ _ATOMS = {
     "old_file_hash == new_file_hash": "negb differs",
     "new_file_hash.is_unknown": "new_unknown",
     "old_file_hash.is_unknown": "old_unknown",
+    "unreadable is not None": "unreadable",
+    "unreadable is None": "negb unreadable",
 }
 
 
@@ -100,17 +104,72 @@ def _block_outcome(stmts, where):
     return out or "InpSame"
 
 
+CAUGHT_OK = {"HashFailedError", "OSError", "PermissionError", "IsADirectoryError", "FileNotFoundError"}
+
+
+def parse_inp_loop_head(lb):
+    """The statements of the loop of compute_inp_hashes up to `all_inp_hashes[path] = new_file_hash`.
+
+    Two shapes:
+      old_file_hash = inp_hashes[path]; new_file_hash = old_file_hash.refreshed(path, cancel_event); all_..[path] = ..
+          -> (None, rest): an exception of refreshed leaves the function
+      old_file_hash = inp_hashes[path]
+      try: new_file_hash = old_file_hash.refreshed(path, cancel_event)
+      except (<subset of HashFailedError, OSError and its subclasses>) as exc:
+          unreadable = <not None>; new_file_hash = FileHash.unknown()
+      else: unreadable = None
+      all_..[path] = ..
+          -> ("fh_unknown", rest): the hash that stands for an input that can no longer be hashed
+    """
+    where = "compute_inp_hashes"
+    first, refresh, store = ("old_file_hash = inp_hashes[path]", "new_file_hash = old_file_hash.refreshed(path, cancel_event)",
+                             "all_inp_hashes[path] = new_file_hash")
+    if len(lb) < 3 or _u(lb[0]) != first:
+        raise TranslatorError(f"{where}: the loop does not start with `{first}`")
+    if _u(lb[1]) == refresh:
+        if _u(lb[2]) != store:
+            raise TranslatorError(f"{where}: `{store}` does not follow the refresh")
+        return None, lb[3:]
+    t = lb[1]
+    if not (isinstance(t, ast.Try) and [_u(x) for x in t.body] == [refresh] and len(t.handlers) == 1
+            and not t.finalbody):
+        raise TranslatorError(f"{where}: the second statement is neither `{refresh}` nor a try around it: {_u(t)[:100]}")
+    h = t.handlers[0]
+    if h.type is None:
+        raise TranslatorError(f"{where}: bare except around refreshed")
+    names = [_u(e) for e in (h.type.elts if isinstance(h.type, ast.Tuple) else [h.type])]
+    if not set(names) <= CAUGHT_OK:
+        raise TranslatorError(f"{where}: the handler catches {names} (model: a subset of {sorted(CAUGHT_OK)}; "
+                              "cancellation, ConsistencyError and ValueError must leave the function)")
+    binds = {}
+    for st in h.body:
+        if not (isinstance(st, ast.Assign) and len(st.targets) == 1 and isinstance(st.targets[0], ast.Name)):
+            raise TranslatorError(f"{where}: unsupported statement in the handler: {_u(st)[:80]}")
+        binds[st.targets[0].id] = st.value
+    if set(binds) != {"unreadable", "new_file_hash"}:
+        raise TranslatorError(f"{where}: the handler binds {sorted(binds)} (model: unreadable, new_file_hash)")
+    if _u(binds["new_file_hash"]) != "FileHash.unknown()":
+        raise TranslatorError(f"{where}: the handler sets new_file_hash = {_u(binds['new_file_hash'])[:60]} "
+                              "(model: FileHash.unknown())")
+    u = binds["unreadable"]
+    if (isinstance(u, ast.Constant) and u.value is None) or not (
+            isinstance(u, ast.Call) and _u(u.func) in ("str", "repr") or isinstance(u, (ast.JoinedStr,))
+            or (isinstance(u, ast.Constant) and isinstance(u.value, (str, bool)) and u.value)):
+        raise TranslatorError(f"{where}: the handler sets unreadable = {_u(u)[:60]} (model: a value that is not None)")
+    if [_u(x) for x in t.orelse] != ["unreadable = None"]:
+        raise TranslatorError(f"{where}: the else branch of the try is not `unreadable = None`")
+    if len(lb) < 3 or _u(lb[2]) != store:
+        raise TranslatorError(f"{where}: `{store}` does not follow the try")
+    return "fh_unknown", lb[3:]
+
+
 def translate_inp_entry(hash_tree):
     fn = find_function(hash_tree, "compute_inp_hashes")
     body = body_without_docstring(fn)
     loops = [s for s in body if isinstance(s, ast.For)]
     if len(loops) != 1 or _u(loops[0].iter) != "sorted(inp_hashes)":
         raise TranslatorError("compute_inp_hashes: not one loop `for path in sorted(inp_hashes)`")
-    lb = loops[0].body
-    want = ["old_file_hash = inp_hashes[path]", "new_file_hash = old_file_hash.refreshed(path, cancel_event)",
-            "all_inp_hashes[path] = new_file_hash"]
-    if [_u(s) for s in lb[:3]] != want:
-        raise TranslatorError(f"compute_inp_hashes: the loop does not start with {want}")
+    on_unreadable, rest = parse_inp_loop_head(loops[0].body)
     # messages is only appended to, and returned as the first field
     for n in ast.walk(fn):
         if isinstance(n, ast.Assign) and any(_u(t) == "messages" for t in n.targets) and _u(n) != "messages = []":
@@ -122,7 +181,11 @@ def translate_inp_entry(hash_tree):
     if not (isinstance(ret, ast.Return) and _u(ret.value) == "HashComputeResult(messages, new_inp_hashes, all_inp_hashes)"):
         raise TranslatorError("compute_inp_hashes: does not return HashComputeResult(messages, new_inp_hashes, all_inp_hashes)")
     # `!=` of FileHash objects is attrs equality (eq=True is the default of attrs.define)
-    return _block_outcome(lb[3:], "compute_inp_hashes")
+    if on_unreadable is None:
+        for n in rest:
+            if "unreadable" in {m.id for m in ast.walk(n) if isinstance(m, ast.Name)}:
+                raise TranslatorError("compute_inp_hashes: `unreadable` is read but never bound")
+    return on_unreadable, _block_outcome(rest, "compute_inp_hashes")
 
 
 # ---------------------------------------------------------------------------------------------
@@ -286,7 +349,7 @@ def check_set_hash_callers():
 def generate():
     exe_tree = parse_module(EXE)
     step_tree = parse_module(STEP)
-    outcome = translate_inp_entry(parse_module(HASH))
+    on_unreadable, outcome = translate_inp_entry(parse_module(HASH))
     t1, t2 = translate_try_skip(exe_tree)
     tv = translate_validate(exe_tree)
     check_recording(exe_tree, step_tree)
@@ -295,11 +358,14 @@ def generate():
         "(* GENERATED by translator/gen_hash_skip.py from /repo/stepup/core/{hash,executor,step,scheduler,job}.py",
         "   -- do not edit *)",
         "From Coq Require Import List NArith Bool.",
-        "From SV Require Import lib.Bytes model.HashTypes model.HashSkipTypes.",
+        "From SV Require Import lib.Bytes model.HashTypes gen.GenHash model.HashSkipTypes.",
         "Import ListNotations.",
         "Open Scope N_scope.",
         "(* hash.py compute_inp_hashes: the statements after `all_inp_hashes[path] = new_file_hash` *)",
-        "Definition inp_entry_outcome (differs new_unknown old_unknown : bool) : inp_outcome :=",
+        "(* hash.py compute_inp_hashes: what stands for the new hash when FileHash.refreshed raises HashFailedError /",
+        "   OSError (directory, unreadable file); None: the exception leaves the function *)",
+        "Definition inp_on_unreadable : option fhash := " + ("None" if on_unreadable is None else f"Some {on_unreadable}") + ".",
+        "Definition inp_entry_outcome (differs new_unknown old_unknown unreadable : bool) : inp_outcome :=",
         f"  {outcome}.",
         "(* executor.py Executor.try_skip_job: the tests that send the step back to PENDING, in order *)",
         f"Definition skip_inp_differs (old new : shash) : bool := {t1}.",
@@ -308,7 +374,7 @@ def generate():
         f"Definition validate_inp_differs (old new : shash) : bool := {tv}.",
         "",
     ]
-    facts = {"inp_entry_outcome": outcome, "skip_tests": [t1, t2], "validate_test": tv}
+    facts = {"inp_on_unreadable": on_unreadable, "inp_entry_outcome": outcome, "skip_tests": [t1, t2], "validate_test": tv}
     return "\n".join(lines), facts
 
 
